@@ -51,6 +51,19 @@ fn main() {
     let scale = std::env::var("VP_SCALE").ok().and_then(|s| s.parse().ok()).unwrap_or(1.0);
     let verif_dir = PathBuf::from(std::env::var("VP_VERIF_DIR").unwrap_or_else(|_| "/verif".into()));
     install_panic_hook();
+    // generous wall-clock watchdog around the whole run: firing is inconclusive, never a violation
+    {
+        let secs: u64 = std::env::var("VP_WATCHDOG_SECS").ok().and_then(|s| s.parse().ok()).unwrap_or(match tier {
+            Tier::Quick => 1800,
+            Tier::Thorough => 6 * 3600,
+        });
+        let idc = id.clone();
+        std::thread::spawn(move || {
+            std::thread::sleep(std::time::Duration::from_secs(secs));
+            println!("INCONCLUSIVE property={} watchdog: run exceeded {} s", idc, secs);
+            std::process::exit(2);
+        });
+    }
     let id_static: &'static str = Box::leak(id.clone().into_boxed_str());
     let ctx = Ctx { id: id_static, tier, seed, threads, replay, start: Instant::now(), verif_dir, scale };
     let code = vpcore::checks::dispatch(&ctx);
